@@ -71,10 +71,20 @@ def job(kind, text, extra=None):
     from nix_manipulator.cli.manipulations import set_value
     try:
         if kind == "roundtrip":
+            from nmverif.monitor.snapshot import snapshot
             d = parse(text)
+            # the parsed tree itself is part of the result (e.g. the file a path literal belongs to)
+            tree = hashlib.sha1(repr(snapshot(d.expressions)).encode()).hexdigest()[:16]
             a = d.rebuild()
             b = d.rebuild()
-            return "rt:" + hashlib.sha1((a + "\0" + b).encode()).hexdigest()
+            return "rt:" + tree + ":" + hashlib.sha1((a + "\0" + b).encode()).hexdigest()
+        if kind == "file-fault":
+            # a parse_file that raises half way (valid syntax, refused by the mapper)
+            try:
+                parse_file(extra)
+                return "ff:accepted"
+            except Exception as exc:  # noqa: BLE001
+                return f"ff:{type(exc).__name__}"
         if kind == "edit":
             out = set_value(parse(text), extra[0], extra[1])
             return "ed:" + hashlib.sha1(out.encode()).hexdigest()
@@ -193,6 +203,16 @@ def run_shard(spec):
             dv = A.decode(t)
             if dv.target is not None:
                 jobs.append(("edit", t, ("zz9", "42")))
+        # fault points: files whose parse raises after the per-file context has been entered
+        scratch = tempfile.mkdtemp(prefix="nmverif-c15h-")
+        for fi, bad in enumerate(["{ a.b = 1; a.b = 2; }\n", "{ x = a:b; }\n", "{ inherit ${a}; }\n"]):
+            pth = os.path.join(scratch, f"sub{fi}", "bad.nix")
+            os.makedirs(os.path.dirname(pth), exist_ok=True)
+            with open(pth, "w") as fh:
+                fh.write(bad)
+            jobs.append(("file-fault", bad, pth))
+        jobs += [("roundtrip", t, None) for t in ["{ p = ./rel/path.nix; q = ../up.nix; }\n", "import ./x.nix\n",
+                                                 "[ ./a ./b/c.nix ]\n"]]
         baseline = [job(*j) for j in jobs]
         for order in range(5):
             idx = list(range(len(jobs)))
@@ -209,6 +229,8 @@ def run_shard(spec):
                 elif jobs[i][0] == "roundtrip" and not got.startswith("exc"):
                     nontriv.add(B.h64(jobs[i][1]))
         res["samples"] = [{"job": j[0], "text": j[1][:160]} for j in jobs[:2]]
+        import shutil
+        shutil.rmtree(scratch, ignore_errors=True)
     elif kind == "threads":
         import nix_manipulator.mapping  # noqa: F401
         import nix_manipulator.cli.manipulations  # noqa: F401
